@@ -31,6 +31,9 @@
      * a suppression period ends at the timer expiry (decision clause) or at a publication
        (publish clause: emits anyway); RecvSV never ends it
      * every sync Interest emitted at an expiry carries the full local vector
+     * a packet and an expiry at the same instant: both orders are behaviours (RecvSV is enabled at
+       timer = 0, before TimerFire; and TimerFire first); the interleaving *inside one loop
+       iteration* (event set and timeout cancelled together) is not modelled
 
    Named deviations (known findings; Dev = {} in stage A, both in B / C so that a path or trace
    that needs one is reported and the rest of it is still checked):
@@ -51,7 +54,8 @@ CONSTANTS NodeOrder,   \* sequence of node ids (strings); NodeOrder[1] is this n
           MaxT,        \* open mode: timers range over 0..MaxT
           MaxBurst,    \* same-instant publications per Publish
           MaxEv,       \* bound on the number of events (0 = unbounded)
-          TickEnds     \* TRUE: time only advances to the expiry or to one tick before it (replay graph)
+          TickEnds,    \* TRUE: time only advances to the expiry or to one tick before it (replay graph)
+          UseHint      \* TRUE only in SvsTrace: see `hint`
 
 VARIABLES local,     \* [Nodes -> Nat]   public local_sv (absent = 0)
           selfSeq,   \* public self_seq
@@ -62,8 +66,11 @@ VARIABLES local,     \* [Nodes -> Nat]   public local_sv (absent = 0)
           out,       \* vectors of the sync Interests emitted by the last step
           missed,    \* on_missing_data calls made by the last step
           last,      \* history: what the last step was (for the properties only)
-          nev
-vars == <<local, selfSeq, state, heard, agg, timer, out, missed, last, nev>>
+          nev,
+          hint       \* not part of the model: lets SvsTrace name the observed timer' / state' *before*
+                     \* the open choices are enumerated (65 x 2 fewer branches per recorded event);
+                     \* always NoHint here
+vars == <<local, selfSeq, state, heard, agg, timer, out, missed, last, nev, hint>>
 \* `last` is a pure history variable (no action reads it): TLC identifies states up to View, and
 \* still evaluates every action property on every transition with the real last'
 View == <<local, selfSeq, state, heard, agg, timer, out, missed, nev>>
@@ -84,29 +91,10 @@ Newer(f, g) == \E n \in Nodes : f[n] > g[n]          \* f is newer than g in som
 
 -----------------------------------------------------------------------------
 (* Packets. p = [k |-> kind, es |-> <<[id |-> node | NoId, seq |-> Nat | NoSeq], ...>>]
-   kinds other than "sv" are sync Interests whose vector cannot be obtained at all.        *)
-Ents(f, D, ord) ==
-  LET ids == SelectSeq(ord, LAMBDA n : n \in D)
-  IN  [i \in 1..Len(ids) |-> [id |-> ids[i], seq |-> f[ids[i]]]]
-Rev(s) == [i \in 1..Len(s) |-> s[Len(s) + 1 - i]]
-SV(es) == [k |-> "sv", es |-> es]
-
-PlainOver(S) == UNION { { SV(Ents(f, D, NodeOrder)) : f \in [D -> S] } : D \in SUBSET Nodes }
-\* exactly one entry (of at least two) lacks its sequence number; both encodings orders
-NoSeqOver(S) == UNION { UNION { { SV(Ents(f, D, NodeOrder)), SV(Ents(f, D, Rev(NodeOrder))) } :
-                                 f \in { g \in [D -> S \cup {NoSeq}] :
-                                           Cardinality({ n \in D : g[n] = NoSeq }) = 1 } } :
-                        D \in SUBSET Nodes }
-\* an entry without node id in front of a plain vector with at most one entry
-NoIdOver(S) == UNION { { SV(<<[id |-> NoId, seq |-> x]>> \o Ents(f, D, NodeOrder)) : f \in [D -> S] } :
-                       D \in { E \in SUBSET Nodes : Cardinality(E) <= 1 }, x \in {NoSeq, MaxSeq} }
-Malformed == { [k |-> kk, es |-> <<>>] : kk \in {"empty", "garbage", "nowrapper", "badname", "unsigned"} }
-
-PacketsFull == PlainOver(0..MaxSeq) \cup NoSeqOver(0..MaxSeq) \cup NoIdOver(0..MaxSeq) \cup Malformed
-PacketsPlain == PlainOver(0..MaxSeq) \cup Malformed
-\* smaller alphabet for the replay graph: plain vectors, and damaged ones over {1, MaxSeq}
-PacketsReplay == PlainOver(0..MaxSeq) \cup NoSeqOver({MaxSeq}) \cup NoIdOver({MaxSeq}) \cup Malformed
-
+   kinds other than "sv" are sync Interests whose vector cannot be obtained at all.
+   The finite packet alphabets the model checker quantifies over are in SvsMC.tla (kept out of this
+   module because TLC evaluates every constant definition at start-up, and SvsTrace instantiates
+   this module with 5 nodes and sequence numbers up to 24).                                   *)
 \* ---- what a packet denotes (declarative; used by the properties)
 HasId(e) == e.id # NoId
 HasSeq(e) == e.seq # NoSeq
@@ -146,9 +134,13 @@ Aggregate(a, l, es) ==
 FirstNoSeq(es) == CHOOSE i \in 1..Len(es) : ~HasSeq(es[i]) /\ \A j \in 1..(i-1) : HasSeq(es[j])
 BeforeNoSeq(es) == SubSeq(es, 1, FirstNoSeq(es) - 1)
 
-SupTimers(j) == IF Mode = "impl" THEN {SupBase + j} ELSE 0..MaxT
-SyncTimers(j) == IF Mode = "impl" THEN {SyncBase + j} ELSE 0..MaxT
-KeepTimer == IF Mode = "impl" THEN {timer} ELSE 0..MaxT
+NoHint == [t |-> -1, s |-> "any"]
+Hinted == IF UseHint THEN TRUE ELSE hint' = NoHint         \* first conjunct of every action
+AnyTimer == IF hint'.t = -1 THEN 0..MaxT ELSE {hint'.t} \cap 0..MaxT
+AnyEnter == IF hint'.s = "any" THEN BOOLEAN ELSE {hint'.s = "Suppress"}
+SupTimers(j) == IF Mode = "impl" THEN {SupBase + j} ELSE AnyTimer
+SyncTimers(j) == IF Mode = "impl" THEN {SyncBase + j} ELSE AnyTimer
+KeepTimer == IF Mode = "impl" THEN {timer} ELSE AnyTimer
 Count == nev' = IF MaxEv = 0 THEN 0 ELSE nev + 1
 More == MaxEv = 0 \/ nev < MaxEv
 
@@ -172,7 +164,7 @@ Process(p, j) ==
       /\ out' = <<>>
       /\ UNCHANGED selfSeq
       /\ IF state = "Steady"
-         THEN \E en \in (IF Mode = "impl" THEN {NeedNotif(local, es)} ELSE BOOLEAN) :
+         THEN \E en \in (IF Mode = "impl" THEN {NeedNotif(local, es)} ELSE AnyEnter) :
                 IF en THEN /\ state' = "Suppress"
                            /\ heard' = DictOf(es) /\ agg' = DictOf(es)
                            /\ timer' \in SupTimers(j)
@@ -208,6 +200,7 @@ RecvChoices(p) ==
 
 \* the jitter parameter is part of the stimulus; it is fixed to 0 where no choice can sample a timer
 RecvSV(p, j, c) ==
+  /\ Hinted
   /\ More /\ Count
   /\ c \in RecvChoices(p)
   /\ LET hopeless == p.k # "sv" \/ p.es = <<>> \/ OverclaimIn(WithId(p.es), selfSeq)
@@ -223,6 +216,7 @@ FireChoices ==
   ELSE {"norm"} \cup (IF Mode = "impl" THEN {} ELSE {"skip"})
 
 TimerFire(j, c) ==
+  /\ Hinted
   /\ More /\ Count
   /\ timer = 0
   /\ c \in FireChoices
@@ -238,6 +232,7 @@ TimerFire(j, c) ==
 
 (* new_data() n times in one loop turn, then on_timer wakes up with next_sync_timing = 0 *)
 Publish(n, j, m) ==
+  /\ Hinted
   /\ More /\ Count
   /\ selfSeq + n <= MaxSeq
   /\ m \in (IF Mode = "impl" THEN {1} ELSE 1..n)        \* number of sync Interests
@@ -250,6 +245,7 @@ Publish(n, j, m) ==
   /\ last' = LastOther("Publish", n)
 
 Tick(d) ==
+  /\ Hinted
   /\ More /\ Count
   /\ d \in 1..timer
   /\ TickEnds => d >= timer - 1
@@ -267,9 +263,11 @@ InitWith(s0, t0) ==
   /\ last = [a |-> "Init", n |-> 0, acc |-> FALSE, dec |-> FALSE, dmg |-> FALSE, oc |-> FALSE, v |-> Zero,
              sup |-> FALSE]
   /\ nev = 0
+  /\ hint = NoHint
 
 JitterSet == IF Mode = "impl" THEN Jitter ELSE {0}
-Init == \E s0 \in InitSeqs : \E j \in JitterSet : \E t0 \in SyncTimers(j) : InitWith(s0, t0)
+Init == \E s0 \in InitSeqs : \E j \in JitterSet :
+          \E t0 \in (IF Mode = "impl" THEN {SyncBase + j} ELSE 0..MaxT) : InitWith(s0, t0)
 
 \* (choices are quantified over constant sets and filtered inside the actions so that TLC labels
 \*  every transition with the action name and all its parameters)
